@@ -3487,6 +3487,149 @@ impl<F: VfsFile> BPlusTree<F> {
 	}
 }
 
+// ===== Verification hook (compiled only with `--cfg surrealkv_verif`) =====
+
+/// Read-only classification of every page of the file.
+#[cfg(surrealkv_verif)]
+#[derive(Debug, Clone, Default, PartialEq, Eq)]
+pub struct VerifPageAccounting {
+	pub total_pages: u64,
+	pub header_free_page_count: u64,
+	pub tree_nodes: u64,
+	pub leaves: u64,
+	pub keys: u64,
+	pub overflow_pages: u64,
+	pub trunk_pages: u64,
+	pub free_listed: u64,
+	pub unaccounted: u64,
+	pub file_pages: u64,
+	/// structural problems found (double use, out-of-range pointer, broken leaf chain, ...)
+	pub problems: Vec<String>,
+}
+
+#[cfg(surrealkv_verif)]
+impl<F: VfsFile> BPlusTree<F> {
+	pub fn verif_page_accounting(&self) -> Result<VerifPageAccounting> {
+		const UNSEEN: u8 = 0;
+		const HEADER: u8 = 1;
+		const TREE: u8 = 2;
+		const OVERFLOW: u8 = 3;
+		const TRUNK: u8 = 4;
+		const FREE: u8 = 5;
+		let total = self.header.total_pages;
+		let mut acc = VerifPageAccounting {
+			total_pages: total,
+			header_free_page_count: self.header.free_page_count as u64,
+			file_pages: self.file.size()?.div_ceil(PAGE_SIZE as u64),
+			..Default::default()
+		};
+		let mut class = vec![UNSEEN; total as usize];
+		if total > 0 {
+			class[0] = HEADER;
+		}
+		fn mark(class: &mut [u8], acc: &mut VerifPageAccounting, offset: u64, what: u8) -> bool {
+			if offset % PAGE_SIZE as u64 != 0 || offset / PAGE_SIZE as u64 >= class.len() as u64 {
+				acc.problems.push(format!("pointer {offset} (class {what}) outside the file's {} pages", class.len()));
+				return false;
+			}
+			let i = (offset / PAGE_SIZE as u64) as usize;
+			if class[i] != UNSEEN {
+				acc.problems.push(format!("page {i} used twice: as class {} and as class {what}", class[i]));
+				return false;
+			}
+			class[i] = what;
+			true
+		}
+		// tree walk
+		let mut leaves_in_order: Vec<(u64, u64, u64)> = Vec::new(); // (offset, prev, next)
+		let mut stack = vec![self.header.root_offset];
+		let mut overflow_heads: Vec<u64> = Vec::new();
+		// DFS that visits children left to right
+		while let Some(off) = stack.pop() {
+			if !mark(&mut class, &mut acc, off, TREE) {
+				continue;
+			}
+			acc.tree_nodes += 1;
+			match self.read_node(off)?.as_ref() {
+				NodeType::Internal(n) => {
+					overflow_heads.extend(n.key_overflows.iter().copied().filter(|&o| o != 0));
+					if n.children.len() != n.keys.len() + 1 {
+						acc.problems.push(format!("internal node at {off}: {} keys but {} children", n.keys.len(), n.children.len()));
+					}
+					for &c in n.children.iter().rev() {
+						stack.push(c);
+					}
+				}
+				NodeType::Leaf(l) => {
+					acc.leaves += 1;
+					acc.keys += l.keys.len() as u64;
+					overflow_heads.extend(l.cell_overflows.iter().copied().filter(|&o| o != 0));
+					leaves_in_order.push((off, l.prev_leaf, l.next_leaf));
+				}
+				NodeType::Overflow(_) => {
+					acc.problems.push(format!("overflow page at {off} linked as a tree node"));
+				}
+			}
+		}
+		// leaf chain must equal the left-to-right order of the leaves
+		for (i, &(off, prev, next)) in leaves_in_order.iter().enumerate() {
+			let want_prev = if i == 0 { 0 } else { leaves_in_order[i - 1].0 };
+			let want_next = leaves_in_order.get(i + 1).map(|l| l.0).unwrap_or(0);
+			if prev != want_prev || next != want_next {
+				acc.problems.push(format!("leaf {off}: prev/next = {prev}/{next}, expected {want_prev}/{want_next}"));
+			}
+		}
+		if let Some(first) = leaves_in_order.first() {
+			if self.header.first_leaf_offset != first.0 {
+				acc.problems.push(format!("header.first_leaf_offset {} but leftmost leaf is {}", self.header.first_leaf_offset, first.0));
+			}
+		}
+		// overflow chains
+		for head in overflow_heads {
+			let mut cur = head;
+			while cur != 0 {
+				if !mark(&mut class, &mut acc, cur, OVERFLOW) {
+					break;
+				}
+				acc.overflow_pages += 1;
+				match self.read_node(cur)?.as_ref() {
+					NodeType::Overflow(o) => cur = o.next_overflow,
+					_ => {
+						acc.problems.push(format!("overflow chain reaches non-overflow page {cur}"));
+						break;
+					}
+				}
+			}
+		}
+		// free list
+		let mut cur = self.header.trunk_page_head;
+		while cur != 0 {
+			if !mark(&mut class, &mut acc, cur, TRUNK) {
+				break;
+			}
+			acc.trunk_pages += 1;
+			let mut buffer = vec![0; PAGE_SIZE];
+			self.file.read_at(cur, &mut buffer)?;
+			let trunk = TrunkPage::deserialize(&buffer, cur)?;
+			for &pn in &trunk.free_pages {
+				if mark(&mut class, &mut acc, pn as u64 * PAGE_SIZE as u64, FREE) {
+					acc.free_listed += 1;
+				}
+			}
+			cur = trunk.next_trunk;
+		}
+		acc.unaccounted = class.iter().filter(|&&c| c == UNSEEN).count() as u64;
+		if acc.unaccounted > 0 {
+			let which: Vec<usize> = class.iter().enumerate().filter(|(_, &c)| c == UNSEEN).map(|(i, _)| i).take(8).collect();
+			acc.problems.push(format!("{} page(s) neither reachable nor free (leaked), e.g. {:?}", acc.unaccounted, which));
+		}
+		if acc.free_listed != acc.header_free_page_count {
+			acc.problems.push(format!("header.free_page_count {} but {} pages are listed in trunk pages", acc.header_free_page_count, acc.free_listed));
+		}
+		Ok(acc)
+	}
+}
+
 #[cfg(test)]
 mod tests {
 	use std::fs::File;
